@@ -588,6 +588,13 @@ struct ReplyWorld : World {
 				fail("no-reply", "awaited request r%u of %s (behaviour %d) was dispatched but its callback ran %d times", q.serial, C.peer[s].name, q.behaviour, q.callbacks);
 			if (!q.awaited && q.callbacks) fail("wrong-requester", "one-way request r%u got an answer", q.serial);
 		}
+		// the requester's record of armed requests: one that was answered is armed no longer (its id is free again, a further answer is refused)
+		for (int s = 0; s < 2; ++s) {
+			bool all = true; int awaited = 0; for (auto &q : C.peer[s].sent) if (q.awaited) { ++awaited; if (!q.sent || q.faulted || q.callbacks != 1) all = false; }
+			size_t active = 0; { const command *c = C.peer[s].con->_wait.begin(); long n = C.peer[s].con->_wait.length(); for (long k = 0; c && k < n; ++k) if (c[k].cmd) ++active; }
+			if (all && awaited && active) fail("answered-still-armed", "all %d awaited requests of %s were answered once, but %zu are still armed in its table of outstanding requests", awaited, C.peer[s].name, active);
+			if (all && awaited) st.hit("probe:wait_table_checked");
+		}
 		for (int s = 0; s < 2; ++s) { Sut su; mpt_connection_fini(C.peer[s].con); free(C.peer[s].con); }
 		check_pending();
 		CCp = 0;
@@ -857,7 +864,7 @@ struct ReplyWorld : World {
 			if (idx) st.hit("fault:reordered");
 			if (fault == FL_DROP) { simio::ddrop(D[side].wchan, idx); st.hit("fault:datagram_lost"); if (q) q->net_faulted = true; log.ev("LOSE datagram %zu from %s (%s r%u)", idx, C.peer[side].name, reply ? "reply" : "request", q ? q->serial : 0); return true; }
 			if (fault == FL_DUP) { simio::ddup(D[side].wchan, idx); ++seen_sent[side]; ++simio::dchan(D[side].wchan)->sent; st.hit("fault:datagram_duplicated"); if (q) q->net_faulted = true; log.ev("DUPLICATE datagram %zu from %s", idx, C.peer[side].name); return true; }
-			if (q) { if (reply) ++q->allowed_callbacks; else ++q->allowed_handled; }
+			if (q) { if (reply) q->allowed_callbacks = 1; else ++q->allowed_handled; }      // (a request is answered at most once at the requester, however many reply datagrams arrive)
 			simio::ddeliver(D[side].wchan, idx);
 			log.ev("DELIVER datagram %zu from %s (%s r%u)", idx, C.peer[side].name, reply ? "reply" : "request", q ? q->serial : 0);
 			return true;
